@@ -1,4 +1,4 @@
-"""C01 — elastic TOF kinematics reproduce the de Broglie / Bragg definitions."""
+"""C01 - elastic TOF kinematics reproduce the de Broglie / Bragg definitions."""
 import random
 import kcorr
 from kcorr import operand, loguniform
@@ -25,7 +25,7 @@ TRUSTED = [
 ]
 ASSUMPTIONS = [
     'IEEE arithmetic without overflow/underflow of intermediates (float32 cases are generated in natural units only)',
-    'theorems are over exact reals; rounding is covered by the correspondence tolerance (1e-12 double — scipp's own unit-conversion factors carry up to ~4e-14 — and 2e-6 single; the property allows 1e-11 / 1e-5)',
+    'theorems are over exact reals; rounding is covered by the correspondence tolerance (1e-12 double - scipp unit-conversion factors carry up to ~4e-14 - and 2e-6 single; the property allows 1e-11 / 1e-5)',
 ]
 M = 'scippneutron.conversion.tof:'
 # kernel / composition name -> (operand kinds in model argument order, expression)
